@@ -108,6 +108,44 @@ CHECKS = {
          "dictionary-order independence of upgrade_prefix_map and file loading (str / Path) rest on the correspondence and on the "
          "Lean checker comparing the implementation's records with the denoted ones.",
     design="§7 C13", technique="Lean 4 theorem (per-loader denotation lemmas) + model/implementation correspondence incl. JSON files and rdflib graphs"),
+ "C14": dict(
+    text="Proof: C14_epm (a record written by _record_to_dict and read by Record(**dict) keeps prefix, URI prefix, both synonym "
+         "sets and the pattern, for arbitrary content), C14_jsonld (the written context, plain or expanded, with or without "
+         "synonyms, reads back to exactly the canonical pairs plus the synonyms), C14_shacl_literal / C14_shacl_entry (escaping "
+         "then Turtle literal lexing is the identity for every string without '\"', LF, CR - in particular with backslashes - for "
+         "prefix, URI prefix and pattern), C14_tsv. Files are modelled at the level of what the reader's parser hands back; the "
+         "real writers and readers are run on real files for every case.",
+    design="§7 C14", technique="Lean 4 theorem (write/read inverse laws over a model of the formats) + round trips through real files"),
+ "C15": dict(
+    text="Proof: C15_roundtrip (print then from_curie is the identity for every separator-free prefix and every identifier, "
+         "split at the first separator), C15_reject, C15_eq_pair / C15_eq_equiv / C15_eq_tuple (== is an equivalence on the "
+         "pydantic classes depending only on the pair; a tuple equals only tuples), C15_hash, C15_lt_irrefl / _trans / "
+         "_trichotomy (strict lexicographic total order on the pair), C15_ctx (converter as validation context). JSON round "
+         "trip, frozen instances and write_triples / read_triples (.tsv, .tsv.gz) are exercised on every case, not modelled.",
+    design="§7 C15", technique="Lean 4 theorem (algebraic laws of the reference model) + model/implementation correspondence on reference tuples, triples files"),
+ "C16": dict(
+    text="Proof: C16_pd / C16_pd_others and C16_file / C16_file_others (each bulk call is, row by row, the scalar function "
+         "applied to the chosen cell, None becoming NA resp. an empty cell, every other cell, the header and the row order "
+         "kept) and C16_atomic (an error result leaves the disk as it was: two-phase helper), for every scalar function, "
+         "table, column and position of the first failing row. The seven real bulk methods are compared, cell by cell, with "
+         "the scalar methods of the implementation itself; for files the bytes before/after are compared when the call raises.",
+    design="§7 C16", technique="Lean 4 theorem (map-over-column and two-phase atomicity of the file helper) + correspondence on real data frames and files"),
+ "C17": dict(
+    text="Proof: C17_match_sound / C17_match_complete (both route patterns, modelled as greedy slash-free first group + "
+         "delimiter + path group, match every request of the promised shape and bind a decomposition of the path), "
+         "C17_first_split (re-splitting at the first delimiter recovers prefix and identifier whichever occurrence the pattern "
+         "chose), C17_respond (302 + Location = expansion iff the prefix is known, else 422, also for identifiers with '/' or "
+         "the delimiter) and C17_agree (Flask = FastAPI). The route-matching models are validated against the real in-process "
+         "test clients on every case.",
+    design="§7 C17", technique="Lean 4 theorem (route-pattern model + first-delimiter re-split) + correspondence against Flask and Starlette test clients"),
+ "C18": dict(
+    text="Proof: C18_answers (answers = valid renderings of u under the record owning its longest registered URI prefix; "
+         "nothing for unrecognised URIs), C18_answers_expand_all (= expand_all(compress(u)) filtered), C18_unconfigured, "
+         "C18_header_supported / _absent / _max (the negotiated type is a supported type whose q is maximal among the supported "
+         "ones listed, or the default), for every validity predicate and every media-type table. SPARQL evaluation, VALUES "
+         "placement and the HTTP transports (Flask GET/POST, FastAPI GET) are exercised on every case; FastAPI POST cannot run "
+         "in this sandbox (python-multipart missing).",
+    design="§7 C18", technique="Lean 4 theorem (answer set via T0, maximal-q negotiation over a stable sort) + correspondence through rdflib SPARQL and both web frameworks"),
  "C19": dict(
     text="Proof: C19_wf (valid strict converter, no synonyms), C19_ends (every URI prefix ends in a delimiter and comes from an "
          "unrecognised input URI with an alphanumeric tail), C19_roundtrip_partial (with no cutoff every qualifying non-GitHub-"
